@@ -119,6 +119,7 @@ fn defer_wake(w: &W, cx: &Context<'_>) {
 pub struct SinkErr(pub u32);
 
 pub trait ErrView {
+    #[allow(dead_code)]
     fn code(&self) -> u32;
 }
 impl ErrView for SinkErr {
